@@ -65,7 +65,7 @@ func tail(s string, n int) string {
 // startMrp starts mrp for one incarnation; events go to <psid>.inc<i>.events
 func startMrp(bindir, dir, psid string, inc int, extraArgs, extraEnv []string) (*exec.Cmd, *strings.Builder, string) {
 	mrp := filepath.Join(bindir, "bin", "mrp")
-	args := append([]string{"pipeline.mro", psid, "--localcores=8", "--localmem=8", "--disable-ui", "--nopreflight"}, extraArgs...)
+	args := append([]string{"pipeline.mro", psid, "--localcores=8", "--localmem=8", "--disable-ui"}, extraArgs...)
 	cmd := exec.Command(mrp, args...)
 	cmd.Dir = dir
 	evfile := filepath.Join(dir, fmt.Sprintf("%s.inc%d.events", psid, inc))
